@@ -3855,6 +3855,18 @@ func (w *Wallet) reliablyPublishTransaction(tx *wire.MsgTx,
 	// on-chain. This is done outside of the database transaction to prevent
 	// backend interaction within it.
 	if err := chainClient.NotifyReceived(ourAddrs); err != nil {
+		// The hand-over to the backend failed, so the transaction is
+		// not going to be broadcast: forget it again, together with
+		// anything spending it, so that its inputs stay spendable.
+		dbErr := walletdb.Update(w.db, func(dbTx walletdb.ReadWriteTx) error {
+			txmgrNs := dbTx.ReadWriteBucket(wtxmgrNamespaceKey)
+			return w.TxStore.RemoveUnminedTx(txmgrNs, txRec)
+		})
+		if dbErr != nil {
+			log.Warnf("Unable to remove unpublished transaction "+
+				"%v: %v", tx.TxHash(), dbErr)
+		}
+
 		return nil, err
 	}
 
